@@ -110,7 +110,10 @@ def net_case(draw):
     # a gross error beyond tol-abs: the exclusion must not depend on the algorithm either
     blunder = None
     if draw(st.integers(0, 3)) == 0:
+        # (not inside correlated clusters: there the removal phase works with the homogenised terms and excludes
+        # neighbours of the blunder as well - known finding of C14)
         cands = [(ci, oi) for ci, cl in enumerate(net["clusters"]) if cl["k"] in ("obs", "hdiff")
+                 and not (cl.get("cov") and cl["cov"]["band"] > 0)
                  for oi, o in enumerate(cl["obs"]) if cl["k"] == "hdiff" or o["t"] in ("distance", "s-distance")]
         if cands:
             blunder = list(draw(st.sampled_from(cands)))
@@ -178,6 +181,9 @@ def oracle_network(c, stats):
         if net.get("free") and alg == "envelope" and x["summary"]["defect"] != ref["summary"]["defect"]:
             return ["net.envelope_free: envelope reports defect %d, the others %d" % (x["summary"]["defect"], ref["summary"]["defect"])]
         fl = c20.tolerant_compare("net.pair.gso.%s" % alg, ref, x, stats, net)
+        if net.get("free") and alg == "envelope":
+            # known finding: in free networks the envelope results are only good to about 1e-5 relative
+            fl = [("net.envelope_free: (accuracy) " + f_) if f_.split(":", 1)[0].endswith(".cov") else f_ for f_ in fl]
         # removed points / excluded observations show as different point and observation sets: compare() reports them
         fails += fl
         for k in ("fixed", "adjusted"):
